@@ -945,4 +945,35 @@ theorem scaling_translation_act_zero_angles [CommRing α] [Div α] (t x : V3 α)
 
 end round5
 
+/-! ### round 6: parameter-setting histories on one transformation object -/
+
+section phistory
+
+/-- `set_parameters_as_vector` forgets the history: whatever was set or fitted on the object before, the state after it is
+the one a fresh object gets from the same vector — in particular the scaling of an isometry (short) vector is 1, not the
+scaling left over from an earlier non-isometry setting. -/
+theorem vector_forgets_history {F : Type} [OfNat F 1] (st st' : PState F) (pre pre' : List (POp F)) (iso : Bool) (t : V2 F)
+    (σ c s : F) :
+    prun st (pre ++ [.vec iso t σ c s]) = prun st' (pre' ++ [.vec iso t σ c s]) ∧
+    (prun st (pre ++ [.vec true t σ c s])).σ = 1 := by
+  simp [prun, List.foldl_append, pstep]
+
+/-- isometry ⇒ distances preserved, after ANY history on the object. -/
+theorem isometry_vector_preserves_distances {F : Type} [CommRing F] [Div F] (st : PState F) (pre : List (POp F)) (t : V2 F)
+    (σ c s : F) (h : c * c + s * s = 1) (x y : V2 F) (p : PState F) (hp : p = prun st (pre ++ [.vec true t σ c s])) :
+    V2.dot (V2.sub ((Affine2.mk' p.t p.σ p.c p.s).call x) ((Affine2.mk' p.t p.σ p.c p.s).call y))
+        (V2.sub ((Affine2.mk' p.t p.σ p.c p.s).call x) ((Affine2.mk' p.t p.σ p.c p.s).call y))
+      = V2.dot (V2.sub x y) (V2.sub x y) := by
+  have hp' : p = ⟨t, 1, c, s⟩ := by rw [hp]; simp [prun, List.foldl_append, pstep]
+  subst hp'
+  have := call_scales_distances_2d (α := F) t 1 c s h x y
+  simp only [one_mul] at this
+  exact this
+
+/-- partial `set_parameters` keeps what it is not given (so a scaling set earlier DOES survive a translation-only update). -/
+theorem partial_set_keeps {F : Type} [OfNat F 1] (st : PState F) (t : V2 F) :
+    (pstep st (.set (some t) none none)).σ = st.σ ∧ (pstep st (.set (some t) none none)).c = st.c := ⟨rfl, rfl⟩
+
+end phistory
+
 end Darsia.C09
